@@ -129,6 +129,7 @@ impl Scenario for AcceptScenario {
             cfg.assocs.push(b);
         }
         let other = 1025;
+        let two = cfg.assocs.len() == 2;
         // in a third of the runs every user read hands over its own handler (read_with_handler)
         let custom_reads = rng.chance(1, 3);
         let mut script = vec![MOp::Enable, MOp::Sleep(1)];
@@ -179,10 +180,10 @@ impl Scenario for AcceptScenario {
                     script.push(MOp::SeriesDev { assoc: 0, at, dev });
                 }
             }
-            // unsolicited traffic while idle
+            // unsolicited traffic while idle (now and then from the other association)
             if rng.chance(1, 4) {
                 script.push(MOp::Unsol {
-                    assoc: 0,
+                    assoc: if two && rng.chance(1, 3) { 1 } else { 0 },
                     seq: rng.below(16) as u8,
                     data: rng.bool(),
                     con: rng.chance(3, 4),
@@ -201,20 +202,22 @@ impl Scenario for AcceptScenario {
             for _ in 0..ndev {
                 replies.push(gen_deviation(rng, other));
             }
+            // (with two associations a quarter of the requests go to the second one, while the first one's traffic goes on)
+            let target = if two && rng.chance(1, 4) { 1 } else { 0 };
             if !replies.is_empty() {
-                script.push(MOp::Replies { assoc: 0, replies });
+                script.push(MOp::Replies { assoc: target, replies });
             }
             script.push(MOp::User {
-                assoc: 0,
+                assoc: target,
                 kind: match gen_user_request(rng) {
                     UserKind::ReadClasses(m) if custom_reads => UserKind::ReadCustom(m),
                     k => k,
                 },
             });
             if rng.chance(1, 4) {
-                // unsolicited in the middle of the task
+                // unsolicited in the middle of the task (of this or of the other association)
                 script.push(MOp::Unsol {
-                    assoc: 0,
+                    assoc: if two && rng.chance(1, 2) { 1 } else { 0 },
                     seq: rng.below(16) as u8,
                     data: rng.bool(),
                     con: rng.bool(),
@@ -224,6 +227,13 @@ impl Scenario for AcceptScenario {
                 script.push(MOp::Raw {
                     src: 1024,
                     bytes: vec![0xC0 | rng.below(16) as u8, 129, 0, 0],
+                });
+            }
+            if rng.chance(1, 10) {
+                // an unsolicited response from an address the master has no association for
+                script.push(MOp::Raw {
+                    src: 9999,
+                    bytes: vec![0xF0 | rng.below(16) as u8, 130, 0, 0, 30, 1, 0x00, 0, 0, 1, 7, 0, 0, 0],
                 });
             }
             script.push(MOp::Sleep(match rng.below(3) {
